@@ -123,6 +123,10 @@ def run_case(case):
         db[OID] = ("str", b"old")
     ctx_engine = b"\x80\x00\x1f\x88\x04another-engine" if case.get("ctxengine") else b""
     client, sender, ag, user = make(kind, password, engine_id, db, ctx, context_engine=ctx_engine)
+    if "agent_max_size" in case:
+        # what the *agent* can receive (announced in its discovery reply and
+        # in every response) says nothing about what the client can receive
+        ag.max_size = case["agent_max_size"]
     out = []
     facts = dict(case)
 
@@ -149,6 +153,16 @@ def run_case(case):
     facts["exception"] = ops.exc_sig(exc)
     world.v3_auth_facts(facts, exc, ag)
     judge_requests(ag, user, case, bad, ctx, ctx_engine)
+    announced = sorted({e["msg"]["max_size"] for e in ag.log[1:] if e.get("msg")})
+    if "agent_max_size" in case:
+        ref_case = dict(case)
+        del ref_case["agent_max_size"]
+        ref_case["family"] = "agent-maxsize-reference"
+        key = (case["kind"], case["op"])
+        if key not in _ANNOUNCED:
+            _ANNOUNCED[key] = run_case(ref_case)[3]
+        if announced != _ANNOUNCED[key]:
+            bad("announced-msgMaxSize-follows-the-agents", announced=announced, with_an_agent_announcing_65507=_ANNOUNCED[key], agent_announced=case["agent_max_size"])
     if exc is not None:
         bad("authentic-response-not-accepted", message=str(exc)[:200])
     elif result != want:
@@ -163,7 +177,10 @@ def run_case(case):
             sizes = (ws[0].length, ws[-1].length if ws[-1].tag & 0x20 else None)
         except Exception:  # noqa
             pass
-    return out, nreq, sizes
+    return out, nreq, sizes, announced
+
+
+_ANNOUNCED = {}
 
 
 def plan(tier):
@@ -203,6 +220,11 @@ def plan(tier):
     for kind in KINDS:
         for op in ("get", "getnext", "bulkget", "set", "walk"):
             cases.append(dict(family="ops", kind=kind, op=op))
+    # agents that announce a small msgMaxSize of their own
+    for kind in KINDS:
+        for op in ("get", "bulkget", "walk"):
+            for ms in (484, 1472, 65535, 2**31 - 1):
+                cases.append(dict(family="agent-maxsize", kind=kind, op=op, agent_max_size=ms))
     if deep:
         # password length x engine id length
         for kind in ("md5-auth", "sha1-priv"):
@@ -225,7 +247,7 @@ def run_memo(acc):
         for kind in ("md5-priv", "sha1-auth"):
             for salt, el in order:
                 case = dict(family="memo", kind=kind, pwlen=14, pwsalt=salt, eidlen=el, op="get")
-                violations, nreq, _ = run_case(case)
+                violations, nreq, _, _ = run_case(case)
                 acc.count(evaluations=1, nontrivial=1, states=1, transitions=nreq, traces=1)
                 acc.outcome("ok" if not violations else violations[0]["kind"])
                 for v in violations:
@@ -240,7 +262,7 @@ def run_shard(params, acc):
     cases = plan(params["tier"])[params["part"] :: params["of"]]
     boundary_hits = 0
     for case in cases:
-        violations, nreq, sizes = run_case(case)
+        violations, nreq, sizes, _ = run_case(case)
         nb = 1 if sizes and any(s in (126, 127, 128, 129, 255, 256) for s in sizes if s is not None) else 0
         acc.count(evaluations=1, nontrivial=1, states=1, transitions=nreq, traces=1)
         acc.bump("responses_at_a_length_form_boundary", nb)
